@@ -1007,7 +1007,7 @@ def run(tier, seed, replay=None):
     ck = Check("C18", tier, seed)
     ck.clean_replays()
     quick = tier == "quick"
-    ninst, nfree = (40, 25) if quick else (1500, 800)
+    ninst, nfree = (40, 25) if quick else (800, 450)
     ck.rule = ("%d planted systems (10 families: ge gb gt po pb pt sy he tr tb; ~15%% exactly singular / not positive definite) and %d free matrices "
                "per worker x 16, every routine of the family called on each; distinct = distinct (family, typecode, order, truth, call) classes" % (ninst, nfree))
     ck.trusted = ["TLC (Lapack.tla: truth of the planted instances in exact arithmetic, contract)", "harness/linalg.py (float residuals, exact rational least squares)"]
